@@ -54,6 +54,7 @@ type Run struct {
 	floors      []floor
 	inconcl     []string
 	replayOnly  string
+	sigSeen     map[string]int
 	kf          *KnownFindings
 }
 
@@ -212,8 +213,12 @@ func (r *Run) Violation(sig, what string, cse, detail any) bool {
 		return false
 	}
 	r.violations++
-	if r.violations > 20 {
-		return true // keep counting, stop writing files
+	if r.sigSeen == nil {
+		r.sigSeen = make(map[string]int)
+	}
+	r.sigSeen[sig]++
+	if r.sigSeen[sig] > 1 || len(r.sigSeen) > 25 {
+		return true // keep counting; one witness file per signature
 	}
 	dir := filepath.Join(VerifDir, "replays")
 	os.MkdirAll(dir, 0o755)
@@ -266,6 +271,9 @@ func (r *Run) finish() int {
 	}
 	for k, v := range r.extra {
 		cov[k] = v
+	}
+	if len(r.sigSeen) > 0 {
+		cov["violation_signatures"] = r.sigSeen
 	}
 	if len(r.known) > 0 {
 		kn := map[string]int{}
